@@ -263,14 +263,17 @@ def inspect_decorator(
             ).format(lineno, 0, len(lines), filename, "\n".join(lines))
         )
 
-    # Go up till a line starts with a decorator
-    decorator_lineno = None  # type: Optional[int]
-    for i in range(lineno, -1, -1):
-        if _DECORATOR_RE.match(lines[i]):
-            decorator_lineno = i
-            break
+    # Go up till a line starts with a decorator.
+    #
+    # Mind that a line which looks like a decorator, a function definition or a class definition can also be
+    # a continuation line of the decorator call (*e.g.*, a line of a multi-line description or a line starting with
+    # a matrix multiplication). Hence we consider such lines only as candidates for the start and the end of
+    # the decorator, and take the first pair of candidates which gives us a valid source code.
+    decorator_linenos = [
+        i for i in range(lineno, -1, -1) if _DECORATOR_RE.match(lines[i])
+    ]
 
-    if decorator_lineno is None:
+    if len(decorator_linenos) == 0:
         raise SyntaxError(
             "Decorator corresponding to the line {} could not be found in file {}: {!r}".format(
                 lineno + 1, filename, lines[lineno]
@@ -278,15 +281,13 @@ def inspect_decorator(
         )
 
     # Find the decorator end -- it's either a function definition, a class definition or another decorator
-    decorator_end_lineno = None  # type: Optional[int]
-    for i in range(lineno + 1, len(lines)):
-        line = lines[i]
+    decorator_end_linenos = [
+        i
+        for i in range(lineno + 1, len(lines))
+        if _DECORATOR_RE.match(lines[i]) or _DEF_CLASS_RE.match(lines[i])
+    ]
 
-        if _DECORATOR_RE.match(line) or _DEF_CLASS_RE.match(line):
-            decorator_end_lineno = i
-            break
-
-    if decorator_end_lineno is None:
+    if len(decorator_end_linenos) == 0:
         raise SyntaxError(
             (
                 "The next statement following the decorator corresponding to the line {} "
@@ -294,20 +295,63 @@ def inspect_decorator(
             ).format(lineno + 1, filename, lines[lineno])
         )
 
-    decorator_lines = lines[decorator_lineno:decorator_end_lineno]
+    atok = None  # type: Optional[asttokens.asttokens.ASTTokens]
+    first_syntax_error = None  # type: Optional[SyntaxError]
 
-    # We need to dedent the decorator and add a dummy decorate so that we can parse its text as valid source code.
-    decorator_text = textwrap.dedent("".join(decorator_lines))
+    decorator_lineno = decorator_linenos[0]
+    decorator_end_lineno = decorator_end_linenos[0]
 
-    if decorator_text[:1] in (" ", "\t"):
-        # The indention of the decorator could not be removed since one of the continuation lines within
-        # the parentheses of the decorator call (or within a multi-line string) is indented less than the decorator.
-        # Only the indention of the first line matters for parsing.
-        decorator_text = "".join([decorator_lines[0].lstrip()] + decorator_lines[1:])
+    # The number of candidates is limited so that a genuine syntax error does not cost too much.
+    for decorator_lineno in decorator_linenos[:8]:
+        for decorator_end_lineno in decorator_end_linenos[:8]:
+            decorator_lines = lines[decorator_lineno:decorator_end_lineno]
 
-    decorator_text += "def dummy_{}(): pass".format(uuid.uuid4().hex)
+            # We need to dedent the decorator and add a dummy decorate so that we can parse its text as valid
+            # source code.
+            decorator_text = textwrap.dedent("".join(decorator_lines))
 
-    atok = asttokens.asttokens.ASTTokens(decorator_text, parse=True)
+            if decorator_text[:1] in (" ", "\t"):
+                # The indention of the decorator could not be removed since one of the continuation lines within
+                # the parentheses of the decorator call (or within a multi-line string) is indented less than
+                # the decorator. Only the indention of the first line matters for parsing.
+                decorator_text = "".join(
+                    [decorator_lines[0].lstrip()] + decorator_lines[1:]
+                )
+
+            decorator_text += "def dummy_{}(): pass".format(uuid.uuid4().hex)
+
+            try:
+                atok = asttokens.asttokens.ASTTokens(decorator_text, parse=True)
+            except SyntaxError as err:
+                if first_syntax_error is None:
+                    first_syntax_error = err
+                continue
+
+            # The lines between the candidates need to contain exactly the single decorator; otherwise, we
+            # swallowed a neighbouring decorator.
+            if (
+                isinstance(atok.tree, ast.Module)
+                and len(atok.tree.body) == 1
+                and isinstance(atok.tree.body[0], ast.FunctionDef)
+                and len(atok.tree.body[0].decorator_list) != 1
+            ):
+                atok = None
+                continue
+
+            break
+
+        if atok is not None:
+            break
+
+    if atok is None:
+        if first_syntax_error is not None:
+            raise first_syntax_error
+
+        raise SyntaxError(
+            "Decorator corresponding to the line {} could not be parsed in file {}: {!r}".format(
+                lineno + 1, filename, lines[lineno]
+            )
+        )
 
     if not isinstance(atok.tree, ast.Module):
         raise ValueError(
